@@ -162,6 +162,7 @@ class Exec:
         self.depth = depth
         self.env = {}
         self.mem = mem if mem is not None else {}
+        self.ctor_fields = set()   # members initialised by this constructor's initialiser list (readable back)
         self.extents = {}   # local array / std::vector cell -> number of elements
         self.elem = {}      # the last element store `p[e] = v` (any root, symbolic subscript): forwarded to the loads of exactly
                             # that element in the straight-line code that follows (dropped at every store, call and branch)
@@ -208,6 +209,7 @@ class Exec:
                 effects.append({"e": "store", "lv": sym.arrow(self.this, ini["field"]), "op": "=", "val": val,
                                 "l": ini.get("l", 0), "ctor_init": True, "written": ini.get("written", False)})
                 self.remember(sym.arrow(self.this, ini["field"]), val)
+
             else:
                 self.ev(ini["e"], effects)
         st = self.block(d.get("body"), effects)
@@ -1396,6 +1398,13 @@ class Exec:
         return True
 
     def remember(self, lv, val):
+        if lv in self.ctor_fields:
+            if val is None:
+                self.mem.pop(lv, None)
+                self.ctor_fields.discard(lv)
+            else:
+                self.mem[lv] = val
+            return
         if self._trackable(lv):
             if val is None:
                 self.mem.pop(lv, None)
